@@ -307,11 +307,14 @@ struct BufCheck : Check {
 
 	void step_done(RunCtx &c, const Step &s)
 	{
+		if (s.op == "touch") { for (auto &x : T.slots) if (x.path == s.path) x.file_changed_outside = true; return; }
 		if (s.op != "keys") return;
 		std::string k = s.meta.str("k");
 		std::string ctx = "step " + std::to_string(c.cur) + " " + vis(s.keys, 30);
 		std::string msg = message(c);
 		MBuf &b = T.cur();
+		// a successful read or whole write of the current buffer's own file brings editor and file back in step
+		if ((k == "reload" || k == "w" || k == "swsq" || k == "wq") && (msg.find("[r]") != std::string::npos || msg.find("[w]") != std::string::npos) && msg.find("failed") == std::string::npos) b.file_changed_outside = false;
 		if (k == "edit") {
 			Text now = c.text();
 			// generated edits add a uniquely named line, so an accepted edit always changes the text;
@@ -544,7 +547,11 @@ struct BufCheck : Check {
 			// every modified buffer must have reached its file; a modified buffer without a name cannot have
 			c.compared();
 			c.count("xa_exited");
+			if (getenv("NVSIM_DEBUG")) for (auto &b : T.slots) fprintf(stderr, "xa: slot %s known=%d differs=%d touched=%d text=%zu saved=%zu\n", b.path.c_str(), b.saved_known, b.differs(), b.file_changed_outside, b.text.size(), b.saved_text.size());
 			for (auto &b : T.slots) {
+				// a modified buffer whose file was rewritten by someone else in the meantime: :xa (no !) must refuse
+				if (b.saved_known && b.differs() && b.file_changed_outside && !b.path.empty())
+					c.violate(V("guard/xa-ignored-a-file-changed-outside"), ctx + ": the editor exited although \"" + b.path + "\" was rewritten by another process after it was read and the buffer has unsaved changes: :xa either overwrote the newer file or dropped the changes");
 				if (!b.saved_known || !b.differs()) continue;
 				bool ex = false;
 				std::string got = b.path.empty() ? std::string() : c.file(b.path, &ex);
